@@ -163,6 +163,8 @@ struct CfgSpec {
     omit_sdu: bool,
     /// a vertex coordinate outside the valid range: the haversine code fails
     bad_coord: bool,
+    /// the configuration is made unreadable in one of several ways (see `break_config`)
+    malformed: Option<usize>,
 }
 
 #[derive(Clone, Debug)]
@@ -272,7 +274,7 @@ fn case_line(sp: &Spec) -> String {
     let head = match &sp.cfg {
         None => format!("{} {}", veh_line(sp.kind, &sp.rec, &sp.sustain, sp.cap, &sp.bunit), q),
         Some(c) => {
-            let mut h = format!("cfg {}", c.library.len());
+            let mut h = format!("cfg {} {}", if c.malformed.is_some() { 1 } else { 0 }, c.library.len());
             for (k, (id, v)) in c.library.iter().enumerate() {
                 // the vehicle the query names carries the rate tables collected on this case's route
                 let selected = matches!(&c.name, NameQuery::Name(n) if n == id) && !c.library[k + 1..].iter().any(|(j, _)| j == id);
@@ -702,6 +704,58 @@ fn write_table(path: &str, xs: &[f64]) {
     std::fs::write(path, t).expect("table file written");
 }
 
+/// make the configuration unreadable: every variant must end in a build error
+fn break_config(params: &mut serde_json::Value, k: usize, grade_file: &str) {
+    let n = params["vehicles"].as_array().map(|a| a.len()).unwrap_or(0);
+    let battery = (0..n).find(|i| params["vehicles"][*i]["type"] != "ice");
+    let phev = (0..n).find(|i| params["vehicles"][*i]["type"] == "phev");
+    // the first record section of the first vehicle
+    let first_is_phev = params["vehicles"][0]["type"] == "phev";
+    match k {
+        1 if battery.is_some() => {
+            params["vehicles"][battery.unwrap()].as_object_mut().unwrap().remove("battery_capacity");
+        }
+        2 if phev.is_some() => {
+            params["vehicles"][phev.unwrap()].as_object_mut().unwrap().remove("charge_depleting");
+        }
+        3 => params["time_model"]["type"] = serde_json::json!("warp"),
+        4 => {
+            params.as_object_mut().unwrap().remove("time_model");
+        }
+        5 => {
+            params.as_object_mut().unwrap().remove("grade_table_grade_unit");
+        }
+        6 => {
+            if first_is_phev {
+                params["vehicles"][0]["charge_sustaining"]["model_input_file"] = serde_json::json!("work/C08_cfg/no_such_model.bin");
+            } else {
+                params["vehicles"][0]["model_input_file"] = serde_json::json!("work/C08_cfg/no_such_model.bin");
+            }
+        }
+        7 | 8 => {
+            let policy = if k == 7 { serde_json::json!({ "cache_size": 0, "key_precisions": [2, 2] }) } else { serde_json::json!({ "cache_size": 10, "key_precisions": [11, 2] }) };
+            if first_is_phev {
+                params["vehicles"][0]["charge_depleting"]["float_cache_policy"] = policy;
+            } else {
+                params["vehicles"][0]["float_cache_policy"] = policy;
+            }
+        }
+        9 => {
+            std::fs::write(grade_file, "0.01\nabc\n0.02\n").expect("grade file");
+            params["grade_table_input_file"] = serde_json::json!(grade_file);
+        }
+        10 => {
+            params.as_object_mut().unwrap().remove("vehicles");
+        }
+        11 if battery.is_some() => params["vehicles"][battery.unwrap()]["battery_capacity_unit"] = serde_json::json!("joules"),
+        12 => params["time_model"]["speed_table_input_file"] = serde_json::json!("work/C08_cfg/no_such_speeds.txt"),
+        13 => {
+            params["vehicles"][0].as_object_mut().unwrap().remove("type");
+        }
+        _ => params["vehicles"][0]["type"] = serde_json::json!("hovercraft"),
+    }
+}
+
 /// construction the way the application does it: `EnergyModelBuilder::build(config)` — the registered
 /// speed-table builder over a speed file, the grade file, `VehicleBuilder::from_string(type).build(..)` per
 /// vehicle over its model file(s), `EnergyModelService::new` — then `service.build(query)`
@@ -732,6 +786,9 @@ fn execute_cfg(sp: &Spec, c: &CfgSpec, idx: usize) -> (String, Outcome) {
     }
     if !c.omit_sdu {
         params["distance_unit"] = serde_json::json!(sp.sdu);
+    }
+    if let Some(k) = c.malformed {
+        break_config(&mut params, k, &grade_file);
     }
     let mut time_models: HashMap<String, std::rc::Rc<dyn TraversalModelBuilder>> = HashMap::new();
     time_models.insert("speed_table".to_string(), std::rc::Rc::new(SpeedLookupBuilder {}));
@@ -948,6 +1005,12 @@ fn oracle_inner(ctx: &mut Fails, idx: usize, sp: &Spec, oc: &Outcome, twin: Opti
     let battery = sp.kind != Kind::Ice;
     if oc.engine_rejected {
         return;
+    }
+    if let Some(c) = &sp.cfg {
+        if let Some(k) = c.malformed {
+            ctx.fail(idx, "builder/accepts-malformed", format!("the unreadable configuration (variant {}) was built", k));
+            return;
+        }
     }
     // --- the query's model_name selects the vehicle; anything that names no configured vehicle is an error
     if let Some(c) = &sp.cfg {
@@ -1675,7 +1738,7 @@ fn generate_cfg(rng: &mut Rng, models: &[String], memo: &mut HashMap<String, Vec
     if sp.kind == Kind::Ice {
         sp.soc_override = None;
     }
-    sp.cfg = Some(CfgSpec { library, name, omit_edu, omit_etu, omit_sdu, bad_coord: rng.chance(1, 20) });
+    sp.cfg = Some(CfgSpec { library, name, omit_edu, omit_etu, omit_sdu, bad_coord: rng.chance(1, 20), malformed: if rng.chance(1, 14) { Some(rng.below(14)) } else { None } });
     sp
 }
 
@@ -1837,12 +1900,13 @@ pub fn run(ctx: &mut Ctx) -> &'static str {
                 if sp.rec.file.as_ref().map(|f| f.adj_cfg.is_none()).unwrap_or(false) { ctx.count("cfg_adjustment_defaulted"); }
                 if cfg.omit_edu || cfg.omit_etu || cfg.omit_sdu { ctx.count("cfg_unit_defaulted"); }
                 if cfg.bad_coord { ctx.count("cfg_haversine_error"); }
+                if let Some(k) = cfg.malformed { ctx.count(&format!("cfg_malformed_{:02}", k)); }
                 count_outcome(ctx, &sp, &oc, &line);
                 oracle(ctx, idx, &sp, &oc, Some(&twin));
                 // the two constructions of the real code must agree (the speed file reader alone rejects
                 // a negative speed, the in-process engine is a struct literal)
                 let valid_name = matches!(&cfg.name, NameQuery::Name(k) if cfg.library.iter().any(|(id, _)| id == k));
-                if valid_name && !sp.speeds.iter().any(|x| *x < 0.0) && strip_direct(&twin_out) != out.splitn(2, " | ").nth(1).unwrap_or("") {
+                if valid_name && cfg.malformed.is_none() && !sp.speeds.iter().any(|x| *x < 0.0) && strip_direct(&twin_out) != out.splitn(2, " | ").nth(1).unwrap_or("") {
                     ctx.fail(idx, "builder/in-process-twin", format!("the model built from configuration gives `{}` where the same vehicle constructed in-process gives `{}`", out.chars().take(300).collect::<String>(), strip_direct(&twin_out).chars().take(300).collect::<String>()));
                 }
             }
